@@ -88,7 +88,12 @@ pub fn gen_event(rng: &mut Rng, p: &Pools, eng: &Eng, kind: Option<u16>) -> SemE
     let mut tags: Vec<Vec<String>> = vec![];
     if is_param(kind) {
         let d = rng.pick(&p.dvals).clone();
-        match rng.below(12) {
+        match rng.below(14) {
+            // a value-less tag of another name (one letter, or the NIP-70 "-") in front of the d tag
+            12 | 13 => {
+                tags.push(vec![if rng.chance(1, 2) { "-".to_string() } else { rng.pick(&p.letters).to_string() }]);
+                tags.push(vec!["d".into(), d]);
+            }
             // a value-less d tag in FRONT of a valued one: the first tag named d decides, so this event has no address
             // although the tag index files it under the later value
             10 | 11 => {
